@@ -27,7 +27,7 @@ FN = ("fun c : (gset * psnames * list str * list (str * str)) => let '(gs, ps, o
       "(if model_rename_eqb gs ps order obs then 1 else 0) + (if spec_rename gs ps order obs then 2 else 0)")
 
 POOL = [("A", 0x41), ("a", 0x61), ("f", 0x66), ("i", 0x69), ("l", 0x6C), ("zero", 0x30), ("nul", 0), ("emoji", 0x1F600),
-        ("alpha", 0x3B1), ("a.sc", None), ("a.alt.ss01", None), ("A.sc", None), ("f_i", None), ("f_f_i", None), ("f_l", None),
+        ("alpha", 0x3B1), ("ffff", 0xFFFF), ("tenk", 0x10000), ("f_ffff", None), ("ffff.alt", None), ("a.sc", None), ("a.alt.ss01", None), ("A.sc", None), ("f_i", None), ("f_f_i", None), ("f_l", None),
         ("f_i.liga", None), ("f.liga", None), ("i.liga", None), ("uni0041", None), ("uni0041.1", None), ("u1F600", None),
         ("emoji.alt", None), ("f_emoji", None), ("a-b", None), ("é", None), ("x" * 70, None), ("a." + "y" * 64, None),
         (".notdef", None), ("_part", None), ("f_nul", None), ("zero.sc", None), ("A.sc.alt", None), ("uni00410042", None),
